@@ -255,11 +255,11 @@ Fixpoint jf_shape_ok (l : list (jstep * option obs2)) : bool :=
   | _ => false
   end.
 
-Definition corr2_gen (exact : bool) (fx5 fx8 : bool) (c : case2) : bool :=
+Definition corr2_gen (exact : bool) (fx5 fx8 fx11 : bool) (c : case2) : bool :=
   match c with
   | JK sha w steps =>
     let H := H_tab sha in
-    run_matches2 exact (jk_run H w [] (map fst steps)) (map snd steps) &&
+    run_matches2 exact (jk_run fx11 H w [] (map fst steps)) (map snd steps) &&
     forallb (fun x => decision_eqb (jk_fresh w (fst (fst x)) (snd (fst x))) (o2_fresh (snd x))) steps
   | HC sha w steps =>
     let H := H_tab sha in
@@ -314,7 +314,7 @@ Fixpoint jk_hits_from (w : jwks_world) (earlier : list (jk_cfg * jtok)) (l : lis
   match l with
   | [] => true
   | (x, o) :: r =>
-    (negb (jk_enabled (fst x) && match jk_lookup w (fst x) (snd x) with JKKey _ => true | _ => false end &&
+    (negb (jk_enabled (fst x) && match jk_lookup w (fst x) (snd x) with JKKey _ tr => negb (jk_rejects (fst x) tr) | _ => false end &&
            existsb (fun y => jk_cfg_eqb (fst y) (fst x) && jtok_eqb (snd y) (snd x)) earlier)
      || Nat.eqb (o2_calls o) 0) && jk_hits_from w (earlier ++ [x]) r
   end.
@@ -329,12 +329,13 @@ Definition prop2 (c : case2) : bool :=
   | JF _ _ _ steps => forallb (fun o => outcome_eqb (o2_out o) (o2_fresh o)) (exec_obs steps) && jf_hits_from [] steps
   end.
 
-(** [fx5]: the signer hash covers the key (repair of F5); [fx8]: responses with Vary are not stored *)
-Definition check2 (fx5 fx8 : bool) (c : case2) : verdict :=
-  {| v_corr := corr2 fx5 fx8 c;
+(** [fx5]: the signer hash covers the key (repair of F5); [fx8]: repair of F8/F9; [fx11]: a cached JWK is validated *)
+Definition check2 (fx5 fx8 fx11 : bool) (c : case2) : verdict :=
+  {| v_corr := corr2 fx5 fx8 fx11 c;
      v_prop := prop2 c;
      v_guards := match c with
-                 | JK sha _ steps => guards [(4%Z, g_jk_F4 (H_tab sha) (map fst steps))]
+                 | JK sha _ steps => guards [(4%Z, g_jk_F4 (H_tab sha) (map fst steps));
+                                             (11%Z, g_F11 (H_tab sha) (map fst steps) && negb fx11)]
                  | HC _ w steps => guards [(4%Z, g_hc_F4 (map fst steps)); (8%Z, g_F8 fx8 w (map fst steps));
                                             (9%Z, g_F9 fx8 w (map fst steps))]
                  | CC _ steps => guards [(4%Z, g_cc_F4 (map fst steps))]
@@ -350,7 +351,7 @@ Definition sgn k g t := {| sg_kid := k; sg_gen := g; sg_thumb := t |}.
 Definition jtk sub cl iss kid gen := enc_jtoken {| jt_sub := sub; jt_claims := cl; jt_iss := iss; jt_kid := kid; jt_gen := gen |}.
 Definition cct (c : cc_cfg) := cc_result c.
 Definition hcc u m a := {| hc_url := u; hc_method := m; hc_auth := a |}.
-Definition jkc u h t := {| jk_url := u; jk_headers := h; jk_ttl := t |}.
+Definition jkc u h t v := {| jk_url := u; jk_headers := h; jk_ttl := t; jk_validate := v |}.
 Definition jtk2 i k sg sub := {| t_iss := i; t_kid := k; t_signer := sg; t_sub := sub |}.
 Definition jko (sub : string) := jk_owner_result sub.
 Definition hrq h b := {| hq_headers := h; hq_body := b |}.
@@ -358,5 +359,5 @@ Definition hrq h b := {| hq_headers := h; hq_body := b |}.
 (** layout drift report (not a verdict of the check): [v_corr] = the keys are byte for byte the ones of the modelled layout *)
 Definition drift (fx : fixes) (c : case) : verdict :=
   {| v_corr := corr_gen true fx c; v_prop := true; v_guards := [] |}.
-Definition drift2 (fx5 fx8 : bool) (c : case2) : verdict :=
-  {| v_corr := corr2_gen true fx5 fx8 c; v_prop := true; v_guards := [] |}.
+Definition drift2 (fx5 fx8 fx11 : bool) (c : case2) : verdict :=
+  {| v_corr := corr2_gen true fx5 fx8 fx11 c; v_prop := true; v_guards := [] |}.
